@@ -29,7 +29,7 @@ LIB = {
     15: (32, 32, S444, 0, 8, 0, 4), 16: (40, 48, S440, 0, 8, 0, 3), 17: (64, 32, S411, 0, 8, 0, 3),
     18: (32, 64, S441, 0, 8, 0, 3), 19: (32, 32, S444, 0, 8, 0, 3), 20: (128, 96, S420, 0, 8, 0, 3),
     21: (64, 64, S420, 0, 8, 1, 3), 22: None, 23: (32, 24, S420, 0, 8, 0, 3), 24: (64, 48, S420, 0, 8, 0, 3),
-    25: (64, 64, S422, 0, 8, 0, 3), 26: (64, 64, S444, 0, 8, 0, 3),
+    25: (64, 64, S422, 0, 8, 0, 3), 26: (64, 64, S444, 0, 8, 0, 3), 27: (256, 256, S444, 0, 8, 1, 3),
 }
 MCUW = {S444: 8, S422: 16, S420: 16, SGRAY: 8, S440: 8, S411: 32, S441: 8}
 MCUH = {S444: 8, S422: 8, S420: 16, SGRAY: 8, S440: 16, S411: 8, S441: 32}
@@ -55,7 +55,7 @@ class Gen:
     def jref(self, kinds, ids=None):
         r = self.r
         if ids is None:
-            ids = [i for i in LIB if i not in (22, 23)]
+            ids = [i for i in LIB if i not in (22, 23, 27)]
         i = r.choice(ids)
         k = r.choice(kinds)
         if k == "":
@@ -145,7 +145,7 @@ class Gen:
             return ["d %d %s %d" % (prec, j, self.pf())]
         if k < 10:
             # header, cropping region, decompress, reset the region
-            i, j = self.jref(kinds, [x for x in LIB if LIB[x] and LIB[x][4] == 8 and x != 23])
+            i, j = self.jref(kinds, [x for x in LIB if LIB[x] and LIB[x][4] == 8 and x not in (23, 27)])
             w, h, ss, ll, prec, prog, nc = LIB[i]
             sf = r.choice(SF) if r.chance(1, 2) else (1, 1)
             sw, sh = scaled(w, sf), scaled(h, sf)
@@ -230,17 +230,41 @@ class Gen:
         ops += probe
         return "I %s ; " % inst + " ; ".join(ops)
 
+    def mem_history(self):
+        """TJPARAM_MAXMEMORY small enough to matter, large enough for ONE operation (256x256 4:4:4: about 0.4 MB of
+        coefficient arrays), and the same full-image virtual-array operation repeated on the instance before the probe"""
+        r = self.r
+        limit = r.choice([1, 1, 2, 3, 4])
+        reps = r.range(3, 6) if limit == 1 else r.range(4, 6) * limit
+        kind = r.below(4)
+        pre = ["set %d %d" % (P_MAXMEM, limit)]
+        if kind == 0:        # progressive decode
+            inst, op = r.choice(["d", "t"]), "d 8 27 %d" % r.choice([0, 2, 6, 7])
+        elif kind == 1:      # optimised-Huffman or progressive compression (coefficient buffer for the whole image)
+            inst = r.choice(["c", "t"])
+            pre += ["set %d %d" % (P_QUALITY, r.range(50, 95)), "set %d %d" % (P_SUBSAMP, r.choice([0, 1, 2])),
+                    "set %d 1" % r.choice([P_OPT, P_PROG])]
+            op = "c 8 256 256 %d 0 n" % r.range(0, 50)
+        elif kind == 2:      # lossless transform
+            inst, op = "t", "t 27 %d %d n" % (r.range(0, 7), r.choice([0, 32, 256, 1]))
+        else:                # decompress to YUV of a progressive image
+            inst, op = r.choice(["d", "t"]), "dy 27"
+        ops = pre + [op] * reps
+        if r.chance(1, 3):   # a failing operation in between must give its space back as well
+            ops.insert(r.range(2, len(ops) - 1), "d 8 27.e%d 0" % r.range(100, 900) if inst in "dt" else "bad 0")
+        return "I %s ; " % inst + " ; ".join(ops + [op])
+
     def raw_history(self):
         r = self.r
         if r.chance(1, 2):
             ops = []
             for _ in range(r.range(2, 5)):
-                i, j = self.jref(HIST_KINDS if len(ops) else [""], [x for x in LIB if LIB[x] and LIB[x][4] == 8 and not LIB[x][3]])
+                i, j = self.jref(HIST_KINDS if len(ops) else [""], [x for x in LIB if LIB[x] and LIB[x][4] == 8 and not LIB[x][3] and x != 27])
                 fancy = r.range(0, 1)
                 skip = r.choice([0, 0, 2, 8, 16, 18])    # even start lines only, see design/C12.md "Side observations"
                 ops.append("d %s %d %d %d %d" % (j, fancy, skip, r.choice([1, 2, 7, 16, 17, 100]), r.range(0, 1)))
             # the probe: a clean stream
-            i, j = self.jref([""], [x for x in LIB if LIB[x] and LIB[x][4] == 8 and not LIB[x][3] and x != 23])
+            i, j = self.jref([""], [x for x in LIB if LIB[x] and LIB[x][4] == 8 and not LIB[x][3] and x not in (23, 27)])
             ops.append("d %s %d %d %d %d" % (j, r.range(0, 1), r.choice([0, 2, 8, 16, 18]), r.choice([1, 2, 7, 16, 17]), r.range(0, 1)))
             return "L d ; " + " ; ".join(ops)
         ops = []
@@ -283,6 +307,10 @@ def finding_signature(hist, res):
     crash = res["crash"] or ""
     ops = [o.strip() for o in hist.split(";")]
     probe = ops[-1].split()
+    for oi, o in enumerate(res.get("ops", [])):
+        mm = [p for p in o.get("S", "").split() if p.startswith("m:")]
+        if mm and (mm[0][2:].split(",")[0] != "0" or mm[0][2:].split(",")[2] != "0"):
+            return "memory-accounting-drift:" + ("probe-differs-under-TJPARAM_MAXMEMORY" if res.get("verdict") == "DIFF" else "total_space_allocated")
     for oi, o in enumerate(res.get("ops", [])):
         stt = o.get("S", "").split()
         if len(stt) >= 2 and ((stt[0] != "c:-" and not stt[0].startswith("c:100,")) or (stt[1] != "d:-" and not stt[1].startswith("d:200,"))):
@@ -361,6 +389,8 @@ def run(ctx):
     g = Gen(rng)
     for _ in range(ctx.n(1700, 30000)):
         hists.append((g.history(), "tj"))
+    for _ in range(ctx.n(40, 600)):
+        hists.append((g.mem_history(), "mem"))
     for _ in range(ctx.n(300, 5000)):
         hists.append((g.raw_history(), "raw"))
     return run_hists(ctx, hists, exes, drv, flavours)
@@ -399,6 +429,16 @@ def run_hists(ctx, hists, exes, drv, flavours):
             elif res["kind"] == "L" and res["fresh"] and (res["fresh"].get("rc") != res["ops"][-1].get("rc") or res["fresh"].get("h") != res["ops"][-1].get("h")):
                 bad = "libjpeg API: reused object gives a different result than a fresh object (%s build)" % fl
             if not bad and res["kind"] == "R":
+                # the memory manager's total_space_allocated accounts exactly for what its pools hold, after every call
+                for oi, o in enumerate(res["ops"]):
+                    mm = [p for p in o.get("S", "").split() if p.startswith("m:")]
+                    if mm:
+                        v = mm[0][2:].split(",")
+                        if v[0] != "0" or v[2] != "0":
+                            bad = ("after call %d total_space_allocated exceeds what the memory pools hold by %s (compressor) / %s (decompressor) "
+                                   "bytes: the next operations see less of TJPARAM_MAXMEMORY than a fresh instance (%s build)" % (oi + 1, v[0], v[2], fl))
+                            break
+            if not bad and res["kind"] == "R":
                 # (1) on the implementation: after every call both objects are back in their START state
                 for oi, o in enumerate(res["ops"]):
                     stt = o.get("S", "").split()
@@ -425,7 +465,9 @@ def run_hists(ctx, hists, exes, drv, flavours):
                        "arithmetic, optimised; 8/12/16 bit; all pixel formats; scaling; cropping), failures by truncation at marker "
                        "boundaries / inside segments / inside entropy data, garbage, changed marker codes, removed segments, invalid "
                        "arguments, NOREALLOC with a small buffer, scan/pixel/memory limits; then a probe on a self-contained stream or image "
-                       "executed on the used and on a fresh instance; plus reused libjpeg objects with jpeg_abort and longjmp error exits; "
+                       "executed on the used and on a fresh instance; TJPARAM_MAXMEMORY 1..4 MB with 3..24 repetitions of a full-image "
+                       "virtual-array operation (progressive decode / optimised or progressive compress / transform / decompress to YUV of a "
+                       "256x256 image) before the same operation as probe; plus reused libjpeg objects with jpeg_abort and longjmp error exits; "
                        "distinct = distinct (stream, last outcome stages, probe output hash)")
     ctx.assume += ["the fresh instance receives the parameter block of the used instance by field copy (every tj3Get-visible parameter, "
                    "scaling factor, cropping region, ICC profile to embed)",
@@ -445,7 +487,7 @@ PARAM_NAMES = ["stopOnWarning", "bottomUp", "noRealloc", "quality", "subsamp", "
 
 def parse_state(S):
     """'c:.. d:.. p:..' -> dict(c=[..]|None, d=[..]|None, p=[..])"""
-    out = {"c": None, "d": None, "p": []}
+    out = {"c": None, "d": None, "p": [], "m": None}
     for part in S.split():
         k, v = part[0], part[2:]
         if v == "-":
@@ -800,6 +842,11 @@ def check_model(ctx, h, stream, res, m):
                 if ms[side][j] != im[side][j]:
                     diffs.append("%s.%s model=%d impl=%d" % (side, nm, ms[side][j], im[side][j]))
             st["full"] += 1
+        if ms.get("m") and im.get("m") and len(ms["m"]) == 4 and len(im["m"]) == 4:
+            if ((ms["m"][0] + ms["m"][1]) != 0) != (im["m"][0] != 0):
+                diffs.append("c.mem accounting: model image share %d+%d, impl drift %d" % (ms["m"][0], ms["m"][1], im["m"][0]))
+            if ((ms["m"][2] + ms["m"][3]) != 0) != (im["m"][2] != 0):
+                diffs.append("d.mem accounting: model image share %d+%d, impl drift %d" % (ms["m"][2], ms["m"][3], im["m"][2]))
         if ms["p"] != im["p"]:
             bad = [(PARAM_NAMES[j], ms["p"][j], im["p"][j]) for j in range(min(len(ms["p"]), len(im["p"]))) if ms["p"][j] != im["p"][j]]
             diffs.append("params " + str(bad[:4]))
